@@ -85,7 +85,7 @@ def strip_indents(lines: list[str], ii: str, si: str) -> tuple[list[str] | None,
 
 def judge(text: str, lines: list[str], width: int, ii: str, si: str, *, fill: bool,
           first_col: int | None = None, check_indent: bool = True, one_line_segments: int | None = None,
-          fill_width: int | None = None, allow_escape: bool = True, first_line_escape: bool = False):
+          fill_width: int | None = None, allow_escape: bool = True, first_line_escape: bool = False, lenf=len):
     """text: what the wrapper was given (one segment: no hard breaks / tag newlines);
     lines: emitted lines including indents; width: configured width.
     first_col: column at which the first line starts if different from len(ii).
@@ -123,18 +123,18 @@ def judge(text: str, lines: list[str], width: int, ii: str, si: str, *, fill: bo
         if len(lines) != want:
             dev.append(("nowrap-lines", {"lines": len(lines), "want": want}))
         return dev
-    c0 = first_col if first_col is not None else len(ii)
+    c0 = first_col if first_col is not None else lenf(ii)
     for i, b in enumerate(nb):
-        col = c0 if i == 0 else len(si)
-        if col + len(b) > width and len(toks[i]) > 1:
-            dev.append(("overlong", {"line": i, "len": col + len(b), "width": width, "excess": col + len(b) - width,
-                                     "indent": col, "first_word_len": len(toks[i][0]), "text": b[:100]}))
+        col = c0 if i == 0 else lenf(si)
+        if col + lenf(b) > width and len(toks[i]) > 1:
+            dev.append(("overlong", {"line": i, "len": col + lenf(b), "width": width, "excess": col + lenf(b) - width,
+                                     "indent": col, "first_word_len": lenf(toks[i][0]), "text": b[:100]}))
     if fill:
         fw = fill_width if fill_width is not None else width
         for i in range(len(nb) - 1):
-            col = c0 if i == 0 else len(si)
+            col = c0 if i == 0 else lenf(si)
             nxt = toks[i + 1][0] if toks[i + 1] else ""
-            if nb[i] and col + len(nb[i]) + 1 + len(nxt) <= fw:
-                dev.append(("not-maximal", {"line": i, "len": col + len(nb[i]), "next_word": nxt[:40], "width": fw,
-                                            "slack": fw - (col + len(nb[i]) + 1 + len(nxt))}))
+            if nb[i] and col + lenf(nb[i]) + 1 + lenf(nxt) <= fw:
+                dev.append(("not-maximal", {"line": i, "len": col + lenf(nb[i]), "next_word": nxt[:40], "width": fw,
+                                            "slack": fw - (col + lenf(nb[i]) + 1 + lenf(nxt))}))
     return dev
